@@ -12,3 +12,4 @@ open GlueVerif.C14
 #print axioms update_id_preserves_order
 #print axioms update_id_preserves_values
 #print axioms update_id_breaks_dependents
+#print axioms parse_print
